@@ -94,6 +94,48 @@ fn arena_digest() -> (u64, usize) {
     (h, len)
 }
 
+static WROTE: AtomicBool = AtomicBool::new(false);
+
+extern "C" fn on_protected_write(_sig: libc::c_int, info: *mut libc::siginfo_t, _uc: *mut libc::c_void) {
+    // a write into the read-only arena: note it, make the arena writable again and let the instruction run again
+    let addr = unsafe { (*info).si_addr() } as usize;
+    let (b, e) = (BASE.load(Relaxed), END.load(Relaxed));
+    if addr >= b && addr < e {
+        WROTE.store(true, SeqCst);
+        unsafe {
+            libc::mprotect(b as *mut libc::c_void, e - b, libc::PROT_READ | libc::PROT_WRITE);
+        }
+    } else {
+        // a genuine fault: default action
+        unsafe {
+            libc::signal(libc::SIGSEGV, libc::SIG_DFL);
+        }
+    }
+}
+
+/// Runs `f` with every page of the arena read-only: true if `f` wrote to memory the structures own, even if it
+/// restored the bytes afterwards (a lock taken and released, a scratch buffer filled and cleared).
+fn writes_to_arena(f: impl FnOnce()) -> bool {
+    let (b, e) = (BASE.load(Relaxed), END.load(Relaxed));
+    if b == 0 {
+        return false;
+    }
+    unsafe {
+        let mut sa: libc::sigaction = std::mem::zeroed();
+        let mut old: libc::sigaction = std::mem::zeroed();
+        sa.sa_sigaction = on_protected_write as *const () as usize;
+        sa.sa_flags = libc::SA_SIGINFO;
+        libc::sigemptyset(&mut sa.sa_mask);
+        libc::sigaction(libc::SIGSEGV, &sa, &mut old);
+        WROTE.store(false, SeqCst);
+        libc::mprotect(b as *mut libc::c_void, e - b, libc::PROT_READ);
+        f();
+        libc::mprotect(b as *mut libc::c_void, e - b, libc::PROT_READ | libc::PROT_WRITE);
+        libc::sigaction(libc::SIGSEGV, &old, std::ptr::null_mut());
+    }
+    WROTE.load(SeqCst)
+}
+
 fn in_arena<R>(on: bool, f: impl FnOnce() -> R) -> R {
     ON.store(on, SeqCst);
     let r = f();
@@ -128,16 +170,13 @@ type Ans = Option<u128>;
 trait Subj: Send + Sync {
     fn ask(&self, q: &Q) -> Ans;
     fn bytes(&self) -> Vec<u8>;
-    /// another value in the same abstract state: 1 = clone(), otherwise deserialize(serialize(..))
+    /// another value in the same abstract state: 1 = clone(), 2 = deserialize(serialize(..)), 3 = clone_from into Default
     fn copy(&self, how: u8) -> Arc<dyn Subj>;
 }
 
-fn copy_of<V: Clone + Serialize + serde::de::DeserializeOwned>(v: &V, how: u8) -> V {
-    if how == 1 {
-        v.clone()
-    } else {
-        bincode::deserialize(&bincode::serialize(v).unwrap()).unwrap()
-    }
+fn copy_of<V: Clone + Default + Serialize + serde::de::DeserializeOwned>(v: &V, how: u8) -> V {
+    // 1 clone, 2 bincode round trip, 3 clone_from into a Default value
+    derived(v, how, V::default)
 }
 
 struct TreeS<X: Tree>(X);
@@ -283,8 +322,8 @@ fn seq_alphabet(r: &RefSeq<u128>, quad_pf: bool, quadrs: bool, cap: usize) -> Ve
         syms.extend([l.1, f.1, *r.occ.keys().next_back().unwrap()]);
     }
     let m = r.max().unwrap_or(0);
-    syms.push((0..=m).find(|x| !r.occ.contains_key(x)).unwrap_or(m + 1));
-    syms.push(m + 2);
+    syms.push((0..=m).find(|x| !r.occ.contains_key(x)).unwrap_or_else(|| m.saturating_add(1)));
+    syms.push(m.saturating_add(2));
     syms.dedup();
     let bs = boundaries(n);
     for &b in &bs {
@@ -450,9 +489,10 @@ fn make_subject(ctx: &mut Ctx, d: &SubjDesc, cap: usize, arena: bool) -> Option<
 
 #[derive(Debug, Clone, Serialize, Deserialize)]
 enum CCase {
-    Hist { subj: SubjDesc, depth: u8, cap: usize },
+    /// `origin`: 0 = the value as built, 1 = a clone of it, 2 = a deserialized copy of it (never queried before)
+    Hist { subj: SubjDesc, depth: u8, cap: usize, #[serde(default)] origin: u8 },
     /// replay of one history
-    History { subj: SubjDesc, cap: usize, queries: Vec<Q> },
+    History { subj: SubjDesc, cap: usize, queries: Vec<Q>, #[serde(default)] origin: u8 },
     Sched { subj: SubjDesc, threads: u8, per_thread: u8, batches: usize },
     Stress { subj: SubjDesc, threads: u8, rounds: usize },
     /// instruction-level preemption exploration (bound 1) of query pairs after a prefix history
@@ -480,8 +520,9 @@ fn solo_answers(ctx: &mut Ctx, s: &dyn Subj, alpha: &[Q]) -> Vec<Result<Ans, Str
         .collect()
 }
 
-fn run_hist(ctx: &mut Ctx, me: &CCase, d: &SubjDesc, depth: u8, cap: usize) {
+fn run_hist(ctx: &mut Ctx, me: &CCase, d: &SubjDesc, depth: u8, cap: usize, origin: u8) {
     let Some((s, alpha)) = make_subject(ctx, d, cap, true) else { return };
+    let s: Arc<dyn Subj> = if origin == 0 { s } else { in_arena(true, || s.copy(origin)) };
     let s: &dyn Subj = &*s;
     let bytes0 = s.bytes();
     let dig0 = arena_digest();
@@ -528,8 +569,8 @@ fn run_hist(ctx: &mut Ctx, me: &CCase, d: &SubjDesc, depth: u8, cap: usize) {
             let got = ask(s, &alpha[qi]);
             if got != fresh[qi] && *reported < 5 {
                 *reported += 1;
-                if let CCase::Hist { subj, cap, .. } = me {
-                    ctx.case_desc = serde_json::to_value(CCase::History { subj: subj.clone(), cap: *cap, queries: stack.iter().map(|&i| alpha[i].clone()).collect() }).unwrap();
+                if let CCase::Hist { subj, cap, origin, .. } = me {
+                    ctx.case_desc = serde_json::to_value(CCase::History { subj: subj.clone(), cap: *cap, queries: stack.iter().map(|&i| alpha[i].clone()).collect(), origin: *origin }).unwrap();
                 }
                 ctx.violation(
                     "query after a history",
@@ -566,8 +607,9 @@ fn run_hist(ctx: &mut Ctx, me: &CCase, d: &SubjDesc, depth: u8, cap: usize) {
     }
 }
 
-fn run_history(ctx: &mut Ctx, d: &SubjDesc, cap: usize, queries: &[Q]) {
+fn run_history(ctx: &mut Ctx, d: &SubjDesc, cap: usize, queries: &[Q], origin: u8) {
     let Some((s, _)) = make_subject(ctx, d, cap, true) else { return };
+    let s: Arc<dyn Subj> = if origin == 0 { s } else { in_arena(true, || s.copy(origin)) };
     // each step is compared with a dedicated fresh instance
     for (j, q) in queries.iter().enumerate() {
         let got = ask(&*s, q);
@@ -810,6 +852,15 @@ fn run_preempt(ctx: &mut Ctx, d: &SubjDesc, max_triples: usize, fresh_mode: u8) 
             writers.push(q.clone());
         }
     }
+    // transient writes (bytes restored by the end of the query) do not show in the digest: ask the MMU
+    for q in &cheap {
+        if !writers.contains(q) && writes_to_arena(|| {
+            let _ = ask(&*s, q);
+        }) {
+            writers.push(q.clone());
+            ctx.count("queries_with_transient_writes");
+        }
+    }
     let impure = !writers.is_empty() || arena_digest() != dig0;
     if impure {
         ctx.count("subjects_whose_queries_write_memory");
@@ -873,6 +924,10 @@ fn run_preempt(ctx: &mut Ctx, d: &SubjDesc, max_triples: usize, fresh_mode: u8) 
         bs.extend(valid.iter().filter(|b| key(b).map_or(false, |(bm, bc, bk)| bm == m && bc == c && bk.abs_diff(k) > 40)).take(2).cloned());
         if let Some(w) = writers.iter().find(|w| *w != a && valid.contains(w) && key(w).map_or(true, |(wm, _, _)| wm != m)) {
             bs.push(w.clone());
+        }
+        // a query of the same method that has no answer (occurrence / position just out of range)
+        if let Some(b) = cheap.iter().find(|b| key(b).map_or(false, |(bm, _, _)| bm == m) && solo(b).is_none()) {
+            bs.push(b.clone());
         }
         bs.dedup();
         if bs.is_empty() {
@@ -954,8 +1009,8 @@ fn run_preempt(ctx: &mut Ctx, d: &SubjDesc, max_triples: usize, fresh_mode: u8) 
 impl Case for CCase {
     fn run(&self, ctx: &mut Ctx) {
         match self {
-            CCase::Hist { subj, depth, cap } => run_hist(ctx, self, subj, *depth, *cap),
-            CCase::History { subj, cap, queries } => run_history(ctx, subj, *cap, queries),
+            CCase::Hist { subj, depth, cap, origin } => run_hist(ctx, self, subj, *depth, *cap, *origin),
+            CCase::History { subj, cap, queries, origin } => run_history(ctx, subj, *cap, queries, *origin),
             CCase::Sched { subj, threads, per_thread, batches } => run_sched(ctx, subj, *threads, *per_thread, *batches),
             CCase::Stress { subj, threads, rounds } => run_stress(ctx, subj, *threads, *rounds),
             CCase::Preempt { subj, max_triples, fresh } => run_preempt(ctx, subj, *max_triples, *fresh),
@@ -993,6 +1048,10 @@ fn subjects(th: bool) -> Vec<SubjDesc> {
         v.push(SubjDesc::Quad { ty: ty.into(), gen: Gen::Boundary { n: 150_000, pat: Pat::Rare(1), sigma: 2 } });
         v.push(SubjDesc::Quad { ty: ty.into(), gen: Gen::Boundary { n: 300_000, pat: Pat::ConstThenPeriodic, sigma: 4 } });
     }
+    // element types whose trees are deeper than 32 levels (binary: 64 / 128 levels; quad: 32 / 64)
+    for (al, elem, vm) in [("WT", "u64", "spread"), ("WT", "u128", "wide"), ("QWT256", "u128", "wide"), ("QWT512Pfs", "u64", "spread")] {
+        v.push(SubjDesc::Tree { alias: al.into(), elem: elem.into(), gen: Gen::Boundary { n: 3000, pat: Pat::Periodic, sigma: 5 }, vmap: vm.into() });
+    }
     for al in ["QWT256", "QWT512Pfs", "HQWT256", "WT"] {
         v.push(SubjDesc::Tree { alias: al.into(), elem: "u8".into(), gen: Gen::Boundary { n: 150_000, pat: Pat::Rare(2), sigma: 9 }, vmap: if al.starts_with('H') { "hid".into() } else { "id".into() } });
     }
@@ -1020,14 +1079,18 @@ fn enumerate(args: &Args) -> Vec<CCase> {
     let th = args.tier == "thorough";
     let mut v = Vec::new();
     for s in subjects(th) {
-        v.push(CCase::Hist { subj: s.clone(), depth: 2, cap: if th { 200 } else { 130 } });
+        v.push(CCase::Hist { subj: s.clone(), depth: 2, cap: if th { 200 } else { 130 }, origin: 0 });
+        // the same histories on a clone and on a deserialized copy (states the constructors do not produce directly)
+        for origin in [1u8, 2, 3] {
+            v.push(CCase::Hist { subj: s.clone(), depth: if th { 2 } else { 1 }, cap: if th { 100 } else { 130 }, origin });
+        }
         if th {
-            v.push(CCase::Hist { subj: s.clone(), depth: 3, cap: 64 });
+            v.push(CCase::Hist { subj: s.clone(), depth: 3, cap: 64, origin: 0 });
         }
         v.push(CCase::Sched { subj: s.clone(), threads: 2, per_thread: 3, batches: if th { 12 } else { 3 } });
         v.push(CCase::Sched { subj: s.clone(), threads: 3, per_thread: 2, batches: if th { 6 } else { 1 } });
         v.push(CCase::Stress { subj: s.clone(), threads: 8, rounds: if th { 40 } else { 8 } });
-        for fresh in 0..3u8 {
+        for fresh in 0..4u8 {
             v.push(CCase::Preempt { subj: s.clone(), max_triples: if th { 1200 } else if fresh == 0 { 260 } else { 90 }, fresh });
         }
     }
